@@ -334,6 +334,63 @@ fn int_frac_case(out: &mut Out, env: &TokEnv, lo: Option<(Dec, bool)>, hi: Optio
     out.count("int_frac_ranges", 1);
 }
 
+
+/// minimum together with exclusiveMinimum (and the same for the upper side): every keyword constrains
+/// (schema.rs get_minimum / get_maximum pick the stronger one); exact-arithmetic oracle
+fn both_bounds_case(out: &mut Out, env: &TokEnv, integer: bool, min: Option<Dec>, xmin: Option<Dec>, max: Option<Dec>, xmax: Option<Dec>) {
+    let mut parts = vec![format!("\"type\":\"{}\"", if integer { "integer" } else { "number" })];
+    for (k, v) in [("minimum", &min), ("exclusiveMinimum", &xmin), ("maximum", &max), ("exclusiveMaximum", &xmax)] {
+        if let Some(d) = v {
+            parts.push(format!("\"{k}\":{}", d.text()));
+        }
+    }
+    let schema = format!("{{{}}}", parts.join(","));
+    use std::cmp::Ordering::*;
+    let inside = |d: &Dec| -> bool {
+        min.as_ref().map_or(true, |b| d.cmp(b) != Less)
+            && xmin.as_ref().map_or(true, |b| d.cmp(b) == Greater)
+            && max.as_ref().map_or(true, |b| d.cmp(b) != Greater)
+            && xmax.as_ref().map_or(true, |b| d.cmp(b) == Less)
+            && (!integer || d.scale == 0 || d.mant % 10i128.pow(d.scale) == 0)
+    };
+    let mut lits: Vec<String> = vec![];
+    for b in [&min, &xmin, &max, &xmax].into_iter().flatten() {
+        lits.extend(float_literals(&Some((*b, true)), &None));
+    }
+    lits.sort();
+    lits.dedup();
+    if integer {
+        lits.retain(|l| !l.contains('.'));
+    }
+    let any_inside = lits.iter().any(|l| inside(&Dec::parse(l)));
+    match matcher_for(env, &schema) {
+        Err(e) => {
+            if e.contains("panic") {
+                out.violation("internal panic compiling a schema with inclusive and exclusive bounds", format!("{schema}: {e}"));
+            } else if any_inside {
+                out.violation("bounds rejected at compile time although a value satisfies all of them", schema.clone());
+            }
+            out.count("both_bounds_rejected", 1);
+        }
+        Ok(m) => {
+            for l in &lits {
+                let d = Dec::parse(l);
+                if l.starts_with("-0") && d.mant == 0 {
+                    continue;
+                }
+                let want = inside(&d);
+                let got = accepts(&m, l);
+                if got != want {
+                    out.violation(&format!("literal {l}: accepted = {got}, satisfies every bound keyword = {want}"), schema.clone());
+                    break;
+                }
+            }
+            out.count("both_bounds_compiled", 1);
+        }
+    }
+    out.case(tagged("noop", vec![sym("bothbounds"), hex(schema.as_bytes())]), tagged("noop", vec![sym("bothbounds"), hex(schema.as_bytes())]), true);
+}
+
 /// allOf of two multipleOf: the combined step is the exact lcm or the schema is rejected
 /// (model: decimal_lcm with the variant read from numeric.rs)
 pub fn lcm_case(out: &mut Out, env: &TokEnv, a: u64, b: u64) {
@@ -594,6 +651,21 @@ pub fn run(rng: &mut Rng, out: &mut Out, tier: &str) {
     for i in 0..n {
         let mut r = rng.fork(0x0900_0000 + i as u64);
         multiple_case(&mut r, out, &env);
+    }
+    // inclusive and exclusive keyword on the same side: a small grid of quarter steps, both orders of strength
+    let g: i128 = if tier == "thorough" { 10 } else { 5 };
+    for a in -g..=g {
+        for db in [-3i128, -1, 0, 1, 2] {
+            let q = |n: i128| if n % 4 == 0 { Dec { mant: n / 4, scale: 0 } } else if n % 2 == 0 { Dec { mant: n * 5 / 2, scale: 1 } } else { Dec { mant: n * 25, scale: 2 } };
+            let (x, y) = (q(a), q(a + db));
+            for integer in [false, true] {
+                both_bounds_case(out, &env, integer, Some(x), Some(y), None, None);
+                both_bounds_case(out, &env, integer, None, None, Some(x), Some(y));
+                if db >= 0 {
+                    both_bounds_case(out, &env, integer, Some(q(a - 6)), Some(q(a - 5)), Some(x), Some(y));
+                }
+            }
+        }
     }
     // integer schemas with a fractional step over narrow ranges (the range may hold fractional multiples only)
     let wmax: i128 = if tier == "thorough" { 6 } else { 3 };
